@@ -46,6 +46,10 @@ CORPUS += [
     b'if header [' + b'"a", ' * 500 + b'"z"] "b" { keep; }', b"# " + b"c" * 70000 + b"\nkeep;", b"/* " + b"*" * 5000 + b" */ keep;",
     b'require "reject"; reject text:\n' + b"line\n" * 3000 + b".\n;", b"keep;" * 2000,
 ]
+# scripts that END inside a command nested far deeper than an interpreter's recursion limit (the verdict names the command
+# still open; finding out which one must not need one stack frame per level)
+CORPUS += [b"if " + b"not " * 1500 + b"header", b"if true {\n" * 1500, b"if anyof(" * 1200 + b"true", b"if " + b"not " * 3000,
+           b"if true { " * 1100 + b"keep"]
 # tokens that never close, filled with what makes a pattern retry: escapes in a string whose quote is lost, dots and line
 # ends in a text block without its final dot, stars in a comment without its end — the verdict must still come at once
 CORPUS += [
